@@ -7,6 +7,7 @@
 #pragma once
 #include "pbt.hpp"
 #include "nngh.h"
+#include <nng/http.h>
 #include <deque>
 #include <unistd.h>
 
@@ -104,6 +105,9 @@ struct Machine {
 	std::vector<int> rcs; // return code of every operation (or -1000 when it has none)
 	int              nurl = 0;
 	std::vector<std::string> paths;
+	nng_http_server *hsrv = nullptr; // HTTP world (one echo server per machine)
+	nng_url         *hurl = nullptr;
+	int              hport = 0;
 	bool             own_fail = false; // an ownership violation was seen (message not live when the API says we own it)
 	char             own_msg[200];
 	long             n_failed_sends = 0, n_recv_ok = 0, n_send_ok = 0, n_setopt_ok = 0;
@@ -199,6 +203,111 @@ setup(Machine *M)
 		if (M->aios[i].a == nullptr)
 			M->aios[i].busy = true; // never usable
 	}
+}
+
+// HTTP: a handler that answers with the value of the request's X-Token header
+static void
+http_echo_token(nng_http *conn, void *, nng_aio *aio)
+{
+	const char *v = nng_http_get_header(conn, "X-Token");
+	if (v == nullptr)
+		v = "none";
+	nng_err rv = nng_http_copy_body(conn, v, strlen(v));
+	if (rv == 0)
+		nng_http_set_status(conn, NNG_HTTP_STATUS_OK, NULL);
+	nng_aio_finish(aio, rv);
+}
+
+// one complete client transaction against the machine's own server: set a header, replace it, transact, and compare
+// what the server saw with what the calls reported.  Returns the first error (NNG_ENOMEM under fault injection) or 0.
+static int
+http_round(Machine *M, long variant)
+{
+	int rv;
+	if (M->hsrv == nullptr) {
+		nng_http_handler *h = nullptr;
+		if ((rv = nng_url_parse(&M->hurl, "http://127.0.0.1:0")) != 0)
+			return rv;
+		if ((rv = nng_http_server_hold(&M->hsrv, M->hurl)) != 0) {
+			nng_url_free(M->hurl);
+			M->hurl = nullptr;
+			M->hsrv = nullptr;
+			return rv;
+		}
+		bool added = false;
+		if ((rv = nng_http_handler_alloc(&h, "/tok", http_echo_token)) == 0) {
+			if ((rv = nng_http_server_add_handler(M->hsrv, h)) == 0)
+				added = true;
+		}
+		if (rv == 0)
+			rv = nng_http_server_start(M->hsrv);
+		if (rv == 0)
+			rv = nng_http_server_get_port(M->hsrv, &M->hport);
+		if (rv != 0) {
+			if (h != nullptr && !added)
+				nng_http_handler_free(h); // (a handler that was never added is still ours)
+			nng_http_server_release(M->hsrv);
+			nng_url_free(M->hurl);
+			M->hsrv = nullptr;
+			M->hurl = nullptr;
+			return rv;
+		}
+	}
+	char ub[64];
+	snprintf(ub, sizeof ub, "http://127.0.0.1:%d/tok", M->hport);
+	nng_url         *u   = nullptr;
+	nng_http_client *cli = nullptr;
+	nng_aio         *aio = nullptr;
+	nng_http        *conn = nullptr;
+	const char      *expect = nullptr;
+	if ((rv = nng_url_parse(&u, ub)) != 0)
+		goto out;
+	if ((rv = nng_http_client_alloc(&cli, u)) != 0)
+		goto out;
+	if ((rv = nng_aio_alloc(&aio, NULL, NULL)) != 0)
+		goto out;
+	nng_aio_set_timeout(aio, 500);
+	nng_http_client_connect(cli, aio);
+	nng_aio_wait(aio);
+	if ((rv = nng_aio_result(aio)) != 0)
+		goto out;
+	conn = (nng_http *) nng_aio_get_output(aio, 0);
+	if ((rv = nng_http_set_uri(conn, "/tok", NULL)) != 0)
+		goto out;
+	if ((rv = nng_http_set_header(conn, "X-Token", "first-value")) != 0)
+		goto out;
+	expect = "first-value";
+	if (variant & 1) {
+		int rv2 = nng_http_set_header(conn, "X-Token", "second-value-which-is-longer");
+		if (rv2 == 0)
+			expect = "second-value-which-is-longer";
+		else if (rv2 != NNG_ENOMEM) {
+			rv = rv2;
+			goto out;
+		}
+		// (on NNG_ENOMEM the documented outcome is "nothing changed": the first value must still be sent)
+	}
+	nng_http_transact(conn, aio);
+	nng_aio_wait(aio);
+	if ((rv = nng_aio_result(aio)) != 0)
+		goto out;
+	{
+		void  *body = nullptr;
+		size_t len  = 0;
+		nng_http_get_body(conn, &body, &len);
+		if (nng_http_get_status(conn) == NNG_HTTP_STATUS_OK && (len != strlen(expect) || memcmp(body, expect, len) != 0))
+			own_fail(M, "HTTP: the server saw X-Token '%.*s' but the client's calls say it is '%s'", (int) (len > 60 ? 60 : len), body ? (const char *) body : "", expect);
+	}
+out:
+	if (conn != nullptr)
+		nng_http_close(conn);
+	if (aio != nullptr)
+		nng_aio_free(aio);
+	if (cli != nullptr)
+		nng_http_client_free(cli);
+	if (u != nullptr)
+		nng_url_free(u);
+	return rv;
 }
 
 // Executes one operation; returns its return code (or -1000).
@@ -603,6 +712,8 @@ step(Machine *M, const vop *o)
 		}
 		return rv;
 	}
+	if (strcmp(n, "http") == 0)
+		return http_round(M, a0);
 	if (strcmp(n, "sleep") == 0) {
 		long ms = a0 < 1 ? 1 : a0 > 100 ? 100 : a0;
 		vs_sleep((int) ms);
@@ -637,6 +748,12 @@ teardown(Machine *M)
 		}
 	for (auto &p : M->paths)
 		unlink(p.c_str());
+	if (M->hsrv != nullptr) {
+		nng_http_server_stop(M->hsrv);
+		nng_http_server_release(M->hsrv);
+		nng_url_free(M->hurl);
+		M->hsrv = nullptr;
+	}
 }
 
 // Runs ops[from..] of the case on a fresh machine.
@@ -684,6 +801,8 @@ static const char *kTemplates[] = {
 	"open 3 0|open 2 0|ctxopen 0|subscribe 0 0 1|listen 1 T|dial 0 0 F|sleep 2|send 1 S 10|ctxrecv 0 0 0 1|ctxclose 0",
 	// 11: rep contexts
 	"open 7 0|open 6 0|listen 0 T|dial 1 0 F|sleep 2|ctxopen 0|ctxrecv 0 0 0 0|send 1 S 10|sleep 2|ctxsend 0 10 1 1|recv 1 S",
+	// http: client transactions against an in-process server, with a header set and replaced
+	"http 1|http 0|http 1|stats",
 	// 12: pair0 both ways with aio forms
 	"open 0 0|open 0 0|listen 0 T|dial 1 0 F|sleep 2|recv 1 2 0 0|send 0 2 10 1|wait 0|wait 1|send 1 S 10|recv 0 S",
 };
